@@ -42,6 +42,10 @@ type vc08Op struct {
 	Refs  []vc08Ref `json:"refs,omitempty"`
 	Cs    []uint32  `json:"cs"`
 	Sc    string    `json:"sc,omitempty"` // scenario label (tnew only)
+	B     string    `json:"b,omitempty"`  // codec ops: raw bytes (hex)
+	B2    string    `json:"b2,omitempty"`
+	Bk    []vc08Bk  `json:"bk,omitempty"`
+	Kv    []vc08KV  `json:"kv,omitempty"` // tlb: raw shelf content
 }
 
 const vc08M = (uint64(1) << 61) - 1
@@ -281,6 +285,7 @@ func (r *vc08Run) exec(op *vc08Op, rng *rand.Rand) {
 
 func (r *vc08Run) exec1(op *vc08Op, rng *rand.Rand) {
 	line := ""
+	tagLoad := ""
 	func() {
 		defer func() {
 			if e := recover(); e != nil {
@@ -320,6 +325,10 @@ func (r *vc08Run) exec1(op *vc08Op, rng *rand.Rand) {
 				r.npages = p + 1
 			}
 		case "tobs":
+		case "tcx", "tci", "tcm", "tca":
+			line = r.codec(op)
+		case "tlb":
+			tagLoad = r.loadBytes(op)
 		case "tpersist":
 			dirty, orphaned := r.tr.Updates()
 			r.tr.ResetUpdates()
@@ -389,7 +398,14 @@ func (r *vc08Run) exec1(op *vc08Op, rng *rand.Rand) {
 					line = fmt.Sprintf("panic:%v", e)
 				}
 			}()
-			line = r.observe(op.Op, op.Cs)
+			tag := op.Op
+			if tagLoad != "" {
+				tag = tagLoad
+			}
+			line = r.observe(tag, op.Cs)
+			if tagLoad == "tlb ok-damaged" {
+				return // a damaged shelf that still loads (never generated): no reference
+			}
 			orc = r.oracle(op.Cs)
 		}()
 	}
@@ -473,6 +489,9 @@ func vc08Scenario(r *vc08Run, rng *rand.Rand, kind string, ls uint32, nb int, mo
 			// or (rarely) anyway — the model mirrors the code on gaps as well, the reference fold is skipped then
 			if mode == "contig" && r.contig {
 				r.exec(&vc08Op{Op: "tpersist"}, rng)
+				if nb <= 16 && rng.Intn(2) == 0 {
+					r.exec(r.genLoadBytes(rng), rng)
+				}
 				r.exec(&vc08Op{Op: "tload", Ls: ls}, rng)
 			}
 		case x < 97:
@@ -551,6 +570,7 @@ func TestVerifC08(t *testing.T) {
 		reps = 6
 	}
 	for rep := 0; rep < reps; rep++ {
+		vc08CodecOps(r, rng, 60)
 		for _, mode := range []string{"contig", "edges", "growth", "random"} {
 			vc08Scenario(r, rng, "xor", 2, 0, mode, 120)
 			vc08Scenario(r, rng, "xor", 4, 0, mode, 120)
